@@ -47,9 +47,24 @@ structure MerkleProof where
   target : HashRange
 deriving DecidableEq, Repr, Inhabited
 
-/-- `HashRange.isValidRange`. -/
+/-- `HashRange.isValidRange`: `Upper != 0` and `Lower < Upper`, the comparison on the numbers
+themselves (the bounds are `uint64` values, carried as naturals `< 2^64`; no subtraction, hence no
+wrap-around: an inverted range `Lower > Upper` is as invalid as an empty one). -/
 def HashRange.isValid (hr : HashRange) : Bool :=
   !(hr.upper == 0) && decide (hr.lower < hr.upper)
+
+/-- Outcome of the merkle part of `MsgProof.ValidateBasic`. -/
+inductive BasicVerdict where
+  | combo   -- fewer than three sibling entries (`InvalidLeafCousinProofsCombo`)
+  | range   -- the target's range is not a proper range (`InvalidMerkleRangeError`)
+  | pass    -- goes on to the leaf's own checks
+deriving DecidableEq, Repr
+
+/-- `MsgProof.ValidateBasic`, merkle part: at least three levels, then `Target.isValidRange()`. -/
+def msgProofBasic (p : MerkleProof) : BasicVerdict :=
+  if p.hashRanges.length < 3 then .combo
+  else if !p.target.isValid then .range
+  else .pass
 
 /-- `MultiAppend(make([]byte, size), parts...)`: successive `copy`s into a fixed, zeroed buffer —
 the concatenation cut at `size` and zero-padded to `size`. -/
